@@ -47,3 +47,5 @@ for hid in ids:
         sh(["git", "-C", "/repo", "worktree", "remove", "--force", str(wt)])
     (d / "result.json").write_text(json.dumps(out, indent=1))
     print(hid, "alarms:", {k: (v[0] if v else "") for k, v in out["alarms"].items()}, out.get("apply_error", ""), flush=True)
+# the checks above re-traced lean/Generated/* from the REWRITTEN sources; the committed files describe /repo itself
+sh(["git", "-C", str(V), "checkout", "--", "lean/Generated"])
